@@ -186,6 +186,22 @@ def equivalence_shapes():
                       "both fields and the written value symbolic",
                       "owned / ref / ref_mut conversions exist under every spelling, the references are the fields themselves, a write lands in field 0",
                       ["impl/src/into.rs::expand (ConversionsAttribute merge)"]))
+    # every pair of kinds: one list / two attributes / two attributes in the other order (three kinds at once hide a flag that leaks from one
+    # kind into another while the attributes are merged - seed C17-into-ref-flag-merged-into-ref-mut)
+    USE = {"owned": "let o: (u8, u16) = m%d::S(x, y).into();",
+           "ref": "let same = { let r: (&u8, &u16) = (&s).into(); ptr::eq(r.0, &s.0) && ptr::eq(r.1, &s.1) };",
+           "ref_mut": "{ let m: (&mut u8, &mut u16) = (&mut s).into(); *m.0 = w; }"}
+    for k1, k2 in (("owned", "ref"), ("owned", "ref_mut"), ("ref", "ref_mut")):
+        sp = ["#[derive(derive_more::Into)]\n#[into(%s, %s)]\npub struct S(pub u8, pub u16);" % (k1, k2),
+              "#[derive(derive_more::Into)]\n#[into(%s)]\n#[into(%s)]\npub struct S(pub u8, pub u16);" % (k1, k2),
+              "#[derive(derive_more::Into)]\n#[into(%s)]\n#[into(%s)]\npub struct S(pub u8, pub u16);" % (k2, k1)]
+        out.append(family("into_kinds_%s_%s" % (k1, k2), sp,
+                          harness("        let x: u8 = kani::any();\n        let y: u16 = kani::any();\n        let w: u8 = kani::any();\n",
+                                  lambda i, k1=k1, k2=k2: ("let mut s = m%d::S(x, y); let o: (u8, u16) = (x, y); let same = true; " % i
+                                                           + (USE[k1] % i if k1 == "owned" else USE[k1]) + " " + USE[k2] + " (o, same, s.0, s.1)"), 3),
+                          "both fields and the written value symbolic",
+                          "the two kinds of conversion exist under every spelling and act on the fields themselves",
+                          ["impl/src/into.rs::ConversionsAttribute::merge_attrs"], quick=(k1, k2) != ("owned", "ref")))
     # ------------------------------------------------------------------ AsRef
     ar = lambda w: ("#[derive(derive_more::AsRef, derive_more::AsMut)]\npub struct S { #[as_ref(%s)] #[as_mut(%s)] pub a: u8, pub b: u16 }" % (w, w))
     out.append(family("as_ref_skip_field", [ar("skip"), ar("ignore")],
@@ -354,6 +370,16 @@ REJECT = [
     ("dup_as_ref_ignore_skip", "duplicate", "#[derive(derive_more::AsRef)] pub struct S { #[as_ref(ignore)] #[as_ref(skip)] a: u8, b: u16 }"),
     ("dup_display_fmt_after_bound", "duplicate", "#[derive(derive_more::Display)] #[display(\"x\")] #[display(bound(u8: Copy))] #[display(\"y\")] pub struct S(u8);"),
     ("dup_display_rename_after_fmt", "duplicate", "#[derive(derive_more::Display)] #[display(rename_all = \"snake_case\")] #[display(\"x\")] #[display(rename_all = \"UPPERCASE\")] pub enum E { A, B }"),
+    # several #[into(kind)] attributes must not generate a kind that none of them names
+    ("absent_into_ref_mut_with_owned_ref_one_list", "absent-impl", "#[derive(derive_more::Into)] #[into(owned, ref)] pub struct S(u8); pub fn f(s: &mut S) -> &mut u8 { s.into() }"),
+    ("absent_into_ref_mut_with_owned_ref_two_attrs", "absent-impl", "#[derive(derive_more::Into)] #[into(owned)] #[into(ref)] pub struct S(u8); pub fn f(s: &mut S) -> &mut u8 { s.into() }"),
+    ("absent_into_ref_mut_with_owned_ref_two_attrs_rev", "absent-impl", "#[derive(derive_more::Into)] #[into(ref)] #[into(owned)] pub struct S(u8); pub fn f(s: &mut S) -> &mut u8 { s.into() }"),
+    ("absent_into_ref_with_owned_ref_mut_one_list", "absent-impl", "#[derive(derive_more::Into)] #[into(owned, ref_mut)] pub struct S(u8); pub fn f(s: &S) -> &u8 { s.into() }"),
+    ("absent_into_ref_with_owned_ref_mut_two_attrs", "absent-impl", "#[derive(derive_more::Into)] #[into(owned)] #[into(ref_mut)] pub struct S(u8); pub fn f(s: &S) -> &u8 { s.into() }"),
+    ("absent_into_ref_with_owned_ref_mut_two_attrs_rev", "absent-impl", "#[derive(derive_more::Into)] #[into(ref_mut)] #[into(owned)] pub struct S(u8); pub fn f(s: &S) -> &u8 { s.into() }"),
+    ("absent_into_owned_with_ref_ref_mut_one_list", "absent-impl", "#[derive(derive_more::Into)] #[into(ref, ref_mut)] pub struct S(u8); pub fn f(s: S) -> u8 { s.into() }"),
+    ("absent_into_owned_with_ref_ref_mut_two_attrs", "absent-impl", "#[derive(derive_more::Into)] #[into(ref)] #[into(ref_mut)] pub struct S(u8); pub fn f(s: S) -> u8 { s.into() }"),
+    ("absent_into_owned_with_ref_ref_mut_two_attrs_rev", "absent-impl", "#[derive(derive_more::Into)] #[into(ref_mut)] #[into(ref)] pub struct S(u8); pub fn f(s: S) -> u8 { s.into() }"),
     # an attribute of the enum itself where the derive only reads its variants' (open finding: silently ignored)
     ("kind_from_forward_enum", "item-kind", "#[derive(derive_more::From)] #[from(forward)] pub enum E { A(u8), B(u16) }"),
     ("kind_from_types_enum", "item-kind", "#[derive(derive_more::From)] #[from(u8)] pub enum E { A(u16), B(u32) }"),
